@@ -188,11 +188,23 @@ def run(rep):
         plan = [(s, _tables(rng, s, 2)) for s in shapes]
         rep.bounds["scenarios"] = dict(enumerated_shapes=total, replayed_shapes=len(shapes), max_objs=5,
                                        tables_per_shape=2)
+    # recursive containment with processors for only some rules: fixed forests (packages nested two and
+    # three deep, entered through Model.root and through elems, notes after the recursive attribute) x
+    # every table that registers a single rule, all rules but one, and all rules
+    for t in D.recursive_templates() + D.qualified_templates():
+        rel = D.relevant_rules(t)
+        tabs = [([r], [], []) for r in rel] + [([x for x in rel if x != r], [], []) for r in rel]
+        tabs += [([r], [r], ["str"]) for r in rel[:4]] + [(list(rel), [], [])]
+        plan.append((t, tabs))
     # bigger seeded-random forests for the same comparison
     nrand = 250 if quick else 3000
     for _ in range(nrand):
         s = D.random_scenario(rng, max_objs=rng.randint(4, 9), nfiles=rng.choice([1, 1, 2]), max_postpone=1)
-        plan.append((s, _tables(rng, s, 2)[1:]))
+        tabs = _tables(rng, s, 2)[1:]
+        if rng.random() < 0.3:          # now and then a table with a single registered rule
+            one = rng.choice(D.relevant_rules(s))
+            tabs.append(([one], [], []))
+        plan.append((s, tabs))
     rep.bounds["random_forests"] = dict(count=nrand, max_objs=9)
     work = tlc.scratch("vt-c13-")
     try:
